@@ -147,6 +147,27 @@ impl<'a> Src for BytesSrc<'a> {
     }
 }
 
+/// `&[Vec<u32>]` lending `&&[u32]` (key type `&[u32]`: a slice of multi-byte elements).
+pub struct WordsSrc<'a> {
+    pub v: &'a [Vec<u32>],
+    pub slot: &'a [u32],
+}
+impl<'a> WordsSrc<'a> {
+    pub fn new(v: &'a [Vec<u32>]) -> Self {
+        WordsSrc { v, slot: &[] }
+    }
+}
+impl<'a> Src for WordsSrc<'a> {
+    type T = &'a [u32];
+    fn len(&self) -> usize {
+        self.v.len()
+    }
+    fn at(&mut self, i: usize) -> &&'a [u32] {
+        self.slot = self.v[i].as_slice();
+        &self.slot
+    }
+}
+
 // ---------------------------------------------------------------------------
 // the probing lender
 
